@@ -290,7 +290,8 @@ CleanupArchetypes(s0, target) ==
             ELSE
               LET tid == s.archs[ai].tgtT[id][i]
                   t   == s.tabs[tid]
-                  ntg == [c \in DOMAIN t.tg |-> IF t.tg[c][1] = id THEN Zero ELSE t.tg[c]]
+                  ntg == [c \in DOMAIN t.tg |-> IF t.tg[c][1] = id \/ (t.tg[c] # Zero /\ ~PoolAlive(s, t.tg[c]))
+                                                  THEN Zero ELSE t.tg[c]]
                   s1  == IF TLen(t) > 0
                          THEN LET g == GetTable(s, ai, ntg)
                                   r == IF g > 0 THEN [s |-> s, t |-> g]
